@@ -168,3 +168,10 @@ add('M32b', x4('SRC/?ldperm.c', "    if ( info[0] == 1 ) { /* Structurally singu
                "    if ( info[0] == 1 ) { /* Structurally singular */\n        printf(\".. The last %d permutations:\\n\", (int)(n-num));\n	slu_PrintInt10(\"perm\", n-num, &perm[num]);\n	SUPERLU_FREE(iw);\n	SUPERLU_FREE(dw);\n	return info[0];\n    }"), ['C17'],
     note='early return on structural singularity leaves the caller arrays 1-based')
 add('M32c', x4('SRC/?ldperm.c', "    return info[0];\n}", "    return 0;\n}"), ['C17'], note='singularity not reported')
+
+# ---------------------------------------------------------------- C20
+add('M40', x4('FORTRAN/c_fortran_?gssv.c', "	for (i = 0; i < *nnz; ++i) rowind0[i] = rowind[i] - 1;", "	for (i = 0; i < *nnz; ++i) rowind0[i] = --rowind[i];"), ['C20'], note='caller rowind shifted in place')
+add('M41', x4('FORTRAN/c_fortran_?gssv.c', "        SUPERLU_FREE (LUfactors->U);\n", ""), ['C20'], note='U header leaked on free request')
+add('M41b', x4('FORTRAN/c_fortran_?gssv.c', "Create_Dense_Matrix(&B, *n, *nrhs, b, *ldb,", "Create_Dense_Matrix(&B, *n, *nrhs, b, *n,"), ['C20'], note='leading dimension of b ignored')
+add('M41c', x4('FORTRAN/c_fortran_?gssv.c', "	LUfactors->perm_c = perm_c;\n	LUfactors->perm_r = perm_r;", "	LUfactors->perm_c = perm_r;\n	LUfactors->perm_r = perm_c;"), ['C20'], note='permutations swapped in the handle')
+add('M37', [('SRC/util.c', "    SUPERLU_FREE ( ((SCformat *)A->Store)->col_to_sup );\n", "")], ['C20', 'C19'], note='Destroy_SuperNode_Matrix forgets col_to_sup')
